@@ -250,19 +250,39 @@ theorem goto_target (f : Finder) (a : Nat) (ev : Ev) (s : St) :
 theorem gosub_target (f : Finder) (a : Nat) (ev : Ev) (s : St) :
     stepInstr f (.goSub (.addr a)) ev s = .cont { s with gosub := s.pc :: s.gosub, pc := a } := rfl
 
-/-- RETURN with a pending GOSUB at `a` continues right after it (or at its label) -/
-theorem return_target (f : Finder) (ev : Ev) (s : St) {a : Nat} {rest : List Nat} (h : s.gosub = a :: rest) :
+/-- RETURN with a pending GOSUB at `a` that was issued by the procedure that is running (the stack is
+higher than it was at the innermost call in progress) continues right after it (or at its label) -/
+theorem return_target (f : Finder) (ev : Ev) (s : St) {a : Nat} {rest : List Nat} (h : s.gosub = a :: rest)
+    (hm : s.marks.head?.getD 0 < s.gosub.length) :
     stepInstr f (.ret none) ev s = .cont { s with gosub := rest, pc := a + 1 } ∧
     ∀ l, stepInstr f (.ret (some (.addr l))) ev s = .cont { s with gosub := rest, pc := l } := by
-  simp [stepInstr, h, tgt]
+  have hn : ¬ s.gosub.length ≤ s.marks.head?.getD 0 := by omega
+  simp only [stepInstr, if_neg hn]
+  simp [h, tgt]
 
-/-- RETURN with nothing pending raises error 3 at the RETURN; unhandled, the run ends with it there -/
-theorem return_without_gosub (f : Finder) (ot : Option Target) (ev : Ev) (s : St) (h : s.gosub = []) :
+/-- RETURN with no GOSUB of the running procedure pending — nothing pending at all, or only GOSUBs
+issued by the callers (the defect repaired by the RETURN fix of round 3: such a RETURN used to answer
+the caller's GOSUB and continued in the caller's code inside the callee's context) — raises error 3 at
+the RETURN; unhandled, the run ends with it there -/
+theorem return_without_gosub (f : Finder) (ot : Option Target) (ev : Ev) (s : St)
+    (h : s.gosub.length ≤ s.marks.head?.getD 0) :
     stepInstr f (.ret ot) ev s = raise f s 3 ∧
     (s.handler = .none → stepInstr f (.ret ot) ev s = .failed 3 { s with errCode := some 3 }) := by
   constructor
   · simp [stepInstr, h]
   · intro hh; simp [stepInstr, h, raise, hh]
+
+/-- the special case the property's text names: nothing pending at all -/
+theorem return_with_empty_stack (f : Finder) (ot : Option Target) (ev : Ev) (s : St) (h : s.gosub = []) :
+    stepInstr f (.ret ot) ev s = raise f s 3 :=
+  (return_without_gosub f ot ev s (by simp [h])).1
+
+/-- a GOSUB pending in the caller is out of the callee's reach: main issues a GOSUB (address 7), the
+routine calls a procedure (mark 1), the procedure executes RETURN -/
+example (f : Finder) (ev : Ev) :
+    let s : St := { (default : St) with gosub := [7], marks := [1], pc := 40 }
+    stepInstr f (.ret none) ev s = raise f s 3 := by
+  intro s; exact (return_without_gosub f none ev s (by decide)).1
 
 /-- a history of GOSUBs (with the address of the GOSUB instruction), RETURNs, and the cuts made when a
 procedure returns or RESUME label leaves the procedures in progress (`return_marks`) -/
@@ -320,7 +340,7 @@ theorem pendingFrom_balanced {n : Nat} {w : List Op} (hw : Balanced n w) :
 def opOf (i : Instr) (s : St) : Option Op :=
   match i with
   | .goSub _ => some (.gosub s.pc)
-  | .ret _ => some .ret
+  | .ret _ => if s.gosub.length ≤ s.marks.head?.getD 0 then none else some .ret
   | .popRet => (match s.marks with
     | m :: _ => some (.cut m)
     | [] => none)
@@ -368,16 +388,19 @@ theorem stepInstr_gosub_stack {f : Finder} {i : Instr} {ev : Ev} {s s' : St}
     subst h; rfl
   case ret ot =>
     simp only [stepInstr] at h
-    cases hg : s.gosub with
-    | nil =>
-      rw [hg] at h
+    by_cases hle : s.gosub.length ≤ s.marks.head?.getD 0
+    · rw [if_pos hle] at h
       have := raise_gosub h
-      simp [opOf, pendingFrom, this, hg]
-    | cons a rest =>
-      rw [hg] at h
-      cases ot with
-      | none => simp at h; subst h; simp [opOf, pendingFrom]
-      | some t => cases t <;> simp [tgt] at h; subst h; simp [opOf, pendingFrom]
+      simp [opOf, hle, pendingFrom, this]
+    · rw [if_neg hle] at h
+      cases hg : s.gosub with
+      | nil => simp [hg] at hle
+      | cons a rest =>
+        rw [hg] at h
+        have hle' : ¬ rest.length + 1 ≤ s.marks.head?.getD 0 := by simpa [hg] using hle
+        cases ot with
+        | none => simp at h; subst h; simp [opOf, hle', pendingFrom, hg]
+        | some t => cases t <;> simp [tgt] at h; subst h; simp [opOf, hle', pendingFrom, hg]
   case resume => exact resumeWith_gosub h
   case resumeNext => exact resumeWith_gosub h
   case resumeLabel t =>
@@ -510,14 +533,18 @@ theorem run_gosub_stack {code : Code} {f : Finder} : ∀ (evs : List Ev) (s : St
 
 /-- **gosub_return_lifo**: in every run, for every history: if `g` executes a GOSUB, the GOSUBs and
 RETURNs executed between `g` and `r` pair off among themselves (any nesting, any number of them, any
-other instructions, handled errors and handlers in between), and `r` executes a plain RETURN, then
-the next state continues right after `g`'s GOSUB instruction with the GOSUB stack `g` started from. -/
+other instructions, handled errors and handlers in between), and `r` executes a plain RETURN in the
+activation that issued the GOSUB (`hact`: no call in progress at `r` was made above `g`'s stack — a
+RETURN executed by a procedure called from the routine cannot answer the routine's GOSUB, see
+`return_without_gosub`), then the next state continues right after `g`'s GOSUB instruction with the
+GOSUB stack `g` started from. -/
 theorem gosub_return_lifo {code : Code} {f : Finder} (evs : List Ev) (s0 : St)
     (pre mid post : List St) (g r nxt : St)
     (htr : (run code f evs s0).1 = pre ++ g :: (mid ++ r :: nxt :: post))
     (hg : opAt code g = some (.gosub g.pc))
     (hmid : Balanced (g.gosub.length + 1) (opsOf code mid))
-    (hr : ∃ ip, code[r.pc]? = some ip ∧ ip.instr = .ret none) :
+    (hr : ∃ ip, code[r.pc]? = some ip ∧ ip.instr = .ret none)
+    (hact : r.marks.head?.getD 0 ≤ g.gosub.length) :
     nxt.pc = g.pc + 1 ∧ nxt.gosub = g.gosub := by
   have hgs : g.gosub = pendingFrom s0.gosub (opsOf code pre) := run_gosub_stack evs s0 pre _ g htr
   have hrs : r.gosub = pendingFrom s0.gosub (opsOf code (pre ++ g :: mid)) := by
@@ -532,7 +559,7 @@ theorem gosub_return_lifo {code : Code} {f : Finder} (evs : List Ev) (s0 : St)
   unfold step at hstep
   rw [hip] at hstep
   simp only [hinstr] at hstep
-  rw [(return_target f ev r hrs').1] at hstep
+  rw [(return_target f ev r hrs' (by rw [hrs']; simp; omega)).1] at hstep
   injection hstep with hstep
   subst hstep
   exact ⟨rfl, rfl⟩
@@ -714,13 +741,16 @@ theorem stepInstr_inv {f : Finder} {i : Instr} {ev : Ev} {s s' : St} (hinv : Err
   case goSub t => cases t <;> simp [stepInstr, tgt] at h; subst h; exact hinv
   case ret ot =>
     simp only [stepInstr] at h
-    cases hg : s.gosub with
-    | nil => rw [hg] at h; exact raise_inv hinv h
-    | cons a rest =>
-      rw [hg] at h
-      cases ot with
-      | none => simp at h; subst h; exact hinv
-      | some t => cases t <;> simp [tgt] at h; subst h; exact hinv
+    by_cases hle : s.gosub.length ≤ s.marks.head?.getD 0
+    · rw [if_pos hle] at h; exact raise_inv hinv h
+    · rw [if_neg hle] at h
+      cases hg : s.gosub with
+      | nil => rw [hg] at h; exact raise_inv hinv h
+      | cons a rest =>
+        rw [hg] at h
+        cases ot with
+        | none => simp at h; subst h; exact hinv
+        | some t => cases t <;> simp [tgt] at h; subst h; exact hinv
   case resume => exact resumeWith_inv h
   case resumeNext => exact resumeWith_inv h
   case resumeLabel t => exact resumeWith_inv h
